@@ -43,8 +43,14 @@ func (r *resolver) resolveMessageDependencies(ms []filedesc.Message, mds []*desc
 				o.L1.Fields.List = append(o.L1.Fields.List, f)
 			}
 
+			inferKind := f.L1.Kind == 0
 			if f.L1.Kind, f.L1.Enum, f.L1.Message, err = r.findTarget(f.Kind(), f.Parent().FullName(), partialName(fd.GetTypeName())); err != nil {
 				return errors.New("message field %q cannot resolve type: %v", f.FullName(), err)
+			}
+			if inferKind && f.L1.Kind == protoreflect.MessageKind && f.L1.EditionFeatures.IsDelimitedEncoded {
+				// The kind was inferred from the type name only now;
+				// apply the message encoding as for a declared kind.
+				f.L1.Kind = protoreflect.GroupKind
 			}
 			if f.L1.Kind == protoreflect.GroupKind && (f.IsMap() || f.IsMapEntry()) {
 				// A map field might inherit delimited encoding from a file-wide default feature.
@@ -76,8 +82,12 @@ func (r *resolver) resolveExtensionDependencies(xs []filedesc.Extension, xds []*
 		if x.L1.Extendee, err = r.findMessageDescriptor(x.Parent().FullName(), partialName(xd.GetExtendee())); err != nil {
 			return errors.New("extension field %q cannot resolve extendee: %v", x.FullName(), err)
 		}
+		inferKind := x.L1.Kind == 0
 		if x.L1.Kind, x.L2.Enum, x.L2.Message, err = r.findTarget(x.Kind(), x.Parent().FullName(), partialName(xd.GetTypeName())); err != nil {
 			return errors.New("extension field %q cannot resolve type: %v", x.FullName(), err)
+		}
+		if inferKind && x.L1.Kind == protoreflect.MessageKind && x.L1.EditionFeatures.IsDelimitedEncoded {
+			x.L1.Kind = protoreflect.GroupKind
 		}
 		if xd.DefaultValue != nil {
 			v, ev, err := unmarshalDefault(xd.GetDefaultValue(), x, r.allowUnresolvable)
